@@ -279,6 +279,16 @@ def prStep (m : PrSt) (toks : List String) : PrSt × String :=
   | ["heartbeat"] => fin (heartbeat m.n)
   | "add" :: rest => match txs? rest with | some txs => fin (Prune.addBlock m.n txs) | none => (m, "bad-op")
   | "remove" :: rest => match txs? rest with | some txs => fin (Prune.removeBlock m.n txs) | none => (m, "bad-op")
+  | ["addn", k] =>
+    match nat? k with
+    | none => (m, "bad-op")
+    | some k =>
+      let rec go (n : Node) : Nat → Node × Prune.Out
+        | 0 => (n, .ok)
+        | j + 1 => match Prune.addBlock n [] with
+          | (n', .ok) => go n' j
+          | r => r
+      fin (go m.n k)
   | ["restart"] => fin (restart m.n)
   | _ => (m, "bad-op")
 
